@@ -133,6 +133,7 @@ type LoadBalancer struct {
 	ctx              context.Context
 	cancel           context.CancelFunc
 	healthCheckWg    sync.WaitGroup
+	healthLoopDone   chan struct{} // closed when the active health check loop has exited
 	wsPool           *WebSocketPool
 }
 
@@ -288,7 +289,11 @@ func (lb *LoadBalancer) setupCircuitBreaker(cfg *config.Config) {
 
 func (lb *LoadBalancer) startHealthChecks() {
 	if lb.healthChecks.activeEnabled {
-		go lb.startActiveHealthChecks()
+		lb.healthLoopDone = make(chan struct{})
+		go func() {
+			defer close(lb.healthLoopDone)
+			lb.startActiveHealthChecks()
+		}()
 		logging.L().Info().Dur("interval", lb.healthChecks.activeInterval).Msg("active health checks enabled")
 	} else {
 		logging.L().Info().Msg("active health checks disabled")
@@ -831,6 +836,11 @@ func (rw *responseWriter) Hijack() (net.Conn, *bufio.ReadWriter, error) {
 func (lb *LoadBalancer) Stop() {
 	logging.L().Info().Msg("shutting down load balancer")
 	lb.cancel()
+	// Wait for the health check loop first: it is the only caller of healthCheckWg.Add,
+	// and Add must not run concurrently with Wait
+	if lb.healthLoopDone != nil {
+		<-lb.healthLoopDone
+	}
 	lb.healthCheckWg.Wait()
 
 	// Shutdown WebSocket pool if enabled
